@@ -2455,5 +2455,62 @@ def cmd_freeze(args):
 CMDS["freeze"] = cmd_freeze
 
 
+
+# ---------------------------------------------------------------------------
+# C13 read-then-write
+
+
+def cmd_rewrite(args):
+    from xdis.load import load_module, write_bytecode_file
+
+    out = {"items": []}
+    for it in args["items"]:
+        rec = {"pyc": it["pyc"], "new": it["new"]}
+        try:
+            (version, ts, magic_int, co, is_pypy, size, sip) = load_module(it["pyc"])
+            rec["native"] = not hasattr(co, "freeze")
+            rec["tree"] = sha(C.nan_norm(C.canon(co, tuple(version[:2]), "full")))
+        except BaseException as e:
+            if isinstance(e, (KeyboardInterrupt, SystemExit)):
+                raise
+            rec["load_error"] = type(e).__name__
+            out["items"].append(rec)
+            continue
+        try:
+            write_bytecode_file(it["new"], co, magic_int, compilation_ts=ts or 1, filesize=size or 0)
+            rec["written"] = True
+        except BaseException as e:
+            if isinstance(e, (KeyboardInterrupt, SystemExit)):
+                raise
+            tb = traceback.extract_tb(sys.exc_info()[2])
+            site = [t.name for t in tb if "/xdis/" in t.filename]
+            rec["written"] = False
+            rec["refused"] = "%s@%s" % (type(e).__name__, site[-1] if site else "?")
+            try:
+                os.unlink(it["new"])
+            except OSError:
+                pass
+            out["items"].append(rec)
+            continue
+        # xdis reads its own output back
+        try:
+            (v2, ts2, m2, co2, p2, s2, h2) = load_module(it["new"])
+            rec["reread_tree"] = sha(C.nan_norm(C.canon(co2, tuple(v2[:2]), "full")))
+            rec["reread_magic_ok"] = (m2 == magic_int)
+            if rec["reread_tree"] != rec["tree"]:
+                d = C.first_diff(C.nan_norm(C.canon(co, tuple(version[:2]), "full")), C.nan_norm(C.canon(co2, tuple(v2[:2]), "full")), "")
+                flds = [p for p in d[0].split("/") if p.startswith("co_")]
+                rec["reread_diff"] = ["x " + (flds[-1] if flds else "?"), d[0], json.dumps(d[1])[:160], json.dumps(d[2])[:160]]
+        except BaseException as e:
+            if isinstance(e, (KeyboardInterrupt, SystemExit)):
+                raise
+            rec["reread_error"] = type(e).__name__ + ": " + str(e)[-120:]
+        out["items"].append(rec)
+    return out
+
+
+CMDS["rewrite"] = cmd_rewrite
+
+
 if __name__ == "__main__":
     main()
